@@ -3,7 +3,7 @@
 import glob, json, os
 ROOT = os.path.dirname(os.path.dirname(os.path.abspath(__file__)))
 rows = []
-for d in sorted(glob.glob(os.path.join(ROOT, "seeded", "*"))):
+for d in sorted(x for x in glob.glob(os.path.join(ROOT, "seeded", "*")) if os.path.isdir(x)):
     m = json.load(open(os.path.join(d, "meta.json")))
     v = m.get("verification", {})
     mech = ""
@@ -16,4 +16,4 @@ print("| seed | property | change | needs | caught by (quick) | first mechanism 
 print("|---|---|---|---|---|---|")
 for r in rows:
     print("| " + " | ".join(r) + " |")
-print(f"\n{len(rows)} seeded changes, {sum(1 for r in rows if r[4] != 'MISSED')} caught by the quick check of their property.")
+print(f"\n{len(rows)} seeded changes, {sum(1 for r in rows if r[4] != 'MISSED')} caught by a quick check (see meta.json of the others).")
